@@ -40,7 +40,8 @@ def _tables(tree: ast.Module, known_globals: Set[str]) -> Dict[str, List[Tuple[a
             continue
         if not all(isinstance(k, (ast.Name, ast.Attribute, ast.Constant)) for k in val.keys):
             continue
-        if not all(isinstance(v, (ast.Lambda, ast.Name, ast.Attribute)) for v in val.values):
+        if not (all(isinstance(v, (ast.Lambda, ast.Name, ast.Attribute)) for v in val.values)
+                or all(isinstance(v, ast.Constant) for v in val.values)):
             continue
         out[tgt] = list(zip(val.keys, val.values))
     # the table must not be mutated or passed around: every use is D[k] / D.get / `in D`
@@ -127,6 +128,20 @@ class _Expand(ast.NodeTransformer):
             # D.get(k)(x): only meaningful under a test that k is in D
             return ast.copy_location(self._chain(name, k, n.args, n.keywords, None), n)
         return ast.copy_location(self._chain(name, k, n.args, n.keywords, _apply(d, n.args, n.keywords)), n)
+
+    def visit_Subscript(self, n: ast.Subscript):
+        # a table of constants read as `T[k]` (not called): `V1 if k == K1 else V2 ...`
+        self.generic_visit(n)
+        if isinstance(n.value, ast.Name) and n.value.id in self.t and isinstance(n.ctx, ast.Load) \
+                and all(isinstance(v, ast.Constant) for _, v in self.t[n.value.id]) and not getattr(n, "_is_callee", False):
+            ents = self.t[n.value.id]
+            cur = copy.deepcopy(ents[-1][1])
+            for key, v in reversed(ents[:-1]):
+                cur = ast.IfExp(test=_eq(n.slice, key), body=copy.deepcopy(v), orelse=cur)
+                cur._dispatch = (n.value.id, ast.dump(n.slice))
+            self.count += 1
+            return ast.copy_location(cur, n)
+        return n
 
     def visit_IfExp(self, n: ast.IfExp):
         # `D.get(k)(x) if D.get(k) is not None else e`  (also `if D.get(k)` / `k in D`)
